@@ -429,6 +429,90 @@ def subst_under_binder(rng, gen, binders):
     return prem, ((k, nt(*args)),), x
 
 
+def subst_body_case(rng, gen):
+    """(pattern, x): a notation / instantiate_pattern whose DEFINITION holds a pending substitution on a variable y
+    different from the queried x, applied so that the substituted argument mentions y (free) but not x, while x
+    comes in through the plug (or, control cases, does not come in at all).  Forms: full application, partial
+    Instantiate, the reverse parameter order, substitution nested under constructors / another notation, SSubst."""
+    nv = max(3, gen.nvars)
+    x = rng.randrange(nv)
+    y = (x + 1 + rng.randrange(nv - 1)) % nv
+    sym = ('y', rng.choice(gen.syms))
+    kindE = rng.random() < 0.75
+    K = 'E' if kindE else 'S'
+    yv = ('e', y) if kindE else ('s', y)
+    target = rng.choice([('a', sym, yv), ('i', yv, sym), yv, ('a', ('a', sym, yv), ('e', (x + 2) % nv if (x + 2) % nv != x else y))])
+    c = rng.random()
+    plug = ('e', x) if c < 0.6 else (('a', sym, ('e', x)) if c < 0.8 else gen.term(1, mvs=False))     # last: control
+    order = rng.random() < 0.5
+    i_t, i_p = (0, 1) if order else (1, 0)
+    body = (K, mv(i_t), y, mv(i_p))
+    c = rng.random()
+    if c < 0.25:
+        body = ('i', body, mv(2))
+    elif c < 0.4:
+        body = ('x', (y + 1) % nv, body)
+    elif c < 0.5:
+        body = (K, mv(i_t), y, ('a', sym, mv(i_p)))
+    items = {i_t: target, i_p: plug, 2: gen.term(0)}
+    keys = sorted(k for k in items if PC.has_kind(body, 'v') and k in ref_metavars_syntactic(body))
+    c = rng.random()
+    if c < 0.2 and len(keys) > 1:
+        keys = [k for k in keys if k != 2] or keys      # partial: phi2 left open
+    d = [(k, items[k]) for k in keys]
+    if rng.random() < 0.3:
+        rng.shuffle(d)
+    p = ('I', body, tuple(d))
+    c = rng.random()
+    if c < 0.2 and gen.notations:
+        nts = [n for n in gen.notations if n.arity >= 1]
+        nt = rng.choice(nts)
+        args = [gen.term(0) for _ in range(nt.arity)]
+        args[rng.randrange(nt.arity)] = p
+        p = nt(*args)
+    elif c < 0.3:
+        p = ('i', gen.term(0), p)
+    return p, x
+
+
+def ref_metavars_syntactic(t):
+    k = t[0]
+    if k == 'v':
+        return {t[1]}
+    if k in 'ia':
+        return ref_metavars_syntactic(t[1]) | ref_metavars_syntactic(t[2])
+    if k in 'xm':
+        return ref_metavars_syntactic(t[2])
+    if k in 'ES':
+        return ref_metavars_syntactic(t[1]) | ref_metavars_syntactic(t[3])
+    if k == 'I':
+        return ref_metavars_syntactic(t[1]) | set().union(*[ref_metavars_syntactic(v) for _, v in t[2]]) if t[2] else ref_metavars_syntactic(t[1])
+    return set()
+
+
+def open_body_case(rng, gen):
+    """(consequent, x): a top-level Instantiate in which x does NOT come in through an argument: the definition has its
+    own free element variable, the dict is empty or partial (metavariables of the body stay open), or a delta was
+    already pushed into the body of an empty-dict Instantiate"""
+    nv = max(3, gen.nvars)
+    x = rng.randrange(nv)
+    sym = ('y', rng.choice(gen.syms))
+    c = rng.random()
+    if c < 0.3:      # definition with its own free variable, applied to closed arguments
+        body = rng.choice([('a', ('a', sym, ('e', x)), mv(0)), ('i', mv(0), ('e', x)), ('a', sym, ('e', x))])
+        d = ((0, ('y', rng.choice(gen.syms))),) if PC.has_kind(body, 'v') and rng.random() < 0.8 else ()
+    elif c < 0.55:   # partial: an unconstrained metavariable of the body stays open
+        body = ('i', mv(0), mv(1))
+        d = ((0, sym),) if rng.random() < 0.7 else ()
+    elif c < 0.8:    # wrap-then-instantiate: the delta went into the body, the dict stayed empty
+        body = ('i', ('e', x), ('I', ('i', mv(0), ('I', ('m', 0, ('s', 0)), ())), ((0, ('e', x)),)))
+        d = ()
+    else:            # controls: x only through an argument / not at all
+        body = ('i', mv(0), mv(1))
+        d = ((0, ('e', x) if rng.random() < 0.5 else sym), (1, sym))
+    return ('I', body, d), x
+
+
 def spine_notations(rng, sym=7):
     """generated notations for deconstruct_nary_application: argument-permuting / duplicating / metavariable-headed"""
     f = ('y', sym)
